@@ -1,0 +1,94 @@
+//! Verification hooks (cargo feature `verif-hooks`, off by default).
+//!
+//! Out-of-tree property checks use this recorder to observe call and operator sites
+//! that the compiler typed as infallible (before `!` is applied) but that returned a
+//! runtime error anyway, even when that error is later swallowed by `??` or an
+//! infallible assignment. Nothing here changes evaluation.
+
+use std::cell::{Cell, RefCell};
+
+use crate::compiler::{ExpressionError, Resolved};
+use crate::diagnostic::Span;
+
+#[derive(Debug, Clone, PartialEq, Eq)]
+pub struct Event {
+    pub kind: &'static str,
+    pub ident: String,
+    pub start: usize,
+    pub end: usize,
+    pub message: String,
+}
+
+thread_local! {
+    static LOG: RefCell<Vec<Event>> = const { RefCell::new(Vec::new()) };
+    static SITES: Cell<u64> = const { Cell::new(0) };
+    static SKIP: Cell<bool> = const { Cell::new(false) };
+}
+
+/// Returns `true` when the caller should wrap its own `resolve` (it then calls itself
+/// once more, and that nested call is let through).
+pub(crate) fn wrap_next() -> bool {
+    SKIP.with(|skip| {
+        if skip.get() {
+            skip.set(false);
+            false
+        } else {
+            skip.set(true);
+            true
+        }
+    })
+}
+
+/// Takes the events recorded on this thread since the last call.
+#[must_use]
+pub fn take() -> Vec<Event> {
+    LOG.with(|log| std::mem::take(&mut *log.borrow_mut()))
+}
+
+/// Takes the number of infallible-typed sites evaluated on this thread since the last call.
+#[must_use]
+pub fn take_sites() -> u64 {
+    SITES.with(|sites| sites.replace(0))
+}
+
+#[derive(Debug, Clone, Copy, Default)]
+pub struct Site {
+    pub(crate) infallible: bool,
+    pub(crate) span: Span,
+}
+
+// Sites never take part in expression equality.
+impl PartialEq for Site {
+    fn eq(&self, _other: &Self) -> bool {
+        true
+    }
+}
+
+impl Site {
+    pub(crate) fn new(span: Span) -> Self {
+        Self {
+            infallible: false,
+            span,
+        }
+    }
+
+    pub(crate) fn observe(&self, kind: &'static str, ident: &str, result: &Resolved) {
+        // make sure a panic-free early exit of the wrapped call never leaves the flag set
+        SKIP.with(|skip| skip.set(false));
+        if !self.infallible {
+            return;
+        }
+        SITES.with(|sites| sites.set(sites.get().wrapping_add(1)));
+        if let Err(ExpressionError::Error { message, .. }) = result {
+            LOG.with(|log| {
+                log.borrow_mut().push(Event {
+                    kind,
+                    ident: ident.to_owned(),
+                    start: self.span.start(),
+                    end: self.span.end(),
+                    message: message.clone(),
+                });
+            });
+        }
+    }
+}
